@@ -244,6 +244,10 @@ func run(sc *scenario, scratch string, seed int64) ([]map[string]any, error) {
 		case "okslow":
 			code, slow = successCodes[int(atomic.AddInt64(codeCursor["ok"], 1))%len(successCodes)], true
 			time.Sleep(1100 * time.Millisecond)
+		case "failslow": // a failing status that takes >= 1 s: still a failure
+			cs := codesOf("fail5")
+			code, slow = cs[int(atomic.AddInt64(codeCursor["fail5"], 1))%len(cs)], true
+			time.Sleep(1100 * time.Millisecond)
 		case "reset":
 			code = -1
 		case "timeout":
